@@ -1,6 +1,7 @@
 (* modelrun for the rpc area (property C18): one request per line, one answer per line.
    Requests (tokens separated by blanks; names never contain blanks):
-     exposed FLAGS TRANSPORT HTTPMODS WSMODS EXPOSEALL
+     exposed CHAIN FLAGS TRANSPORT HTTPMODS WSMODS EXPOSEALL
+         CHAIN     aquahash | clique   (which generated API list: gen_apis / gen_apis_clique)
          FLAGS     five 0/1 characters: UNSAFE_RPC_SIGNING, UNSAFE_ALLOW_SIGN_IPC, UNSAFE_RPC_SIGNING_HTTP,
                    UNSAFE_RPC_SIGNING_WS, UNSAFE_ALLOW_SIGN_INPROC
          TRANSPORT inproc | ipc | http | ws
@@ -31,11 +32,12 @@ let bit b = if b then "1" else "0"
 
 let handle (toks : String.t list) : String.t =
   match toks with
-  | ["exposed"; fl; tr; hm; wm; ea] ->
+  | ["exposed"; chain; fl; tr; hm; wm; ea] ->
+    let apis = (match chain with "aquahash" -> gen_apis | "clique" -> gen_apis_clique | _ -> failwith "chain") in
     let c = { c_http_modules = mods_of gen_default_config.c_http_modules hm;
               c_ws_modules = mods_of gen_default_config.c_ws_modules wm;
               c_ws_expose_all = (ea = "1") } in
-    (match gen_exposed (flags_of fl) (transport_of tr) c gen_apis with
+    (match gen_exposed (flags_of fl) (transport_of tr) c apis with
      | None -> "fail"
      | Some r ->
        let ms = List.map (fun e -> s_of_b (wire_name e) ^ "|" ^ s_of_b e.e_recv ^ "|" ^ bit e.e_sub ^ "|" ^ bit e.e_signs) r.r_entries in
